@@ -33,6 +33,8 @@ type task struct {
 	vc       []uint64
 	panicVal any
 	pending  []unsafe.Pointer // objects of atomic ops to re-synchronise on at the next step
+	locks    int              // modelled exclusive locks currently held
+	inOnce   int              // depth of sync.Once bodies being executed
 }
 
 // Result of one scheduled run.
